@@ -1,3 +1,3 @@
 import Driver.Loop
-/- stub: no executable model for C03 yet -/
-def main : IO UInt32 := CelerVerif.runDriver (fun (s : Unit) _ => (s, "bad-op")) ()
+import CelerVerif.Model.NavDriver
+def main : IO UInt32 := CelerVerif.runDriver CelerVerif.Nav.driverStep CelerVerif.Nav.DState.init
